@@ -493,6 +493,35 @@ func truncatedViewArg(P *Program, fn *ssa.Function, idx int, depth int) (string,
 	return "", false
 }
 
+// truncatedViewOf: v is x[a:b] (upper bound, no capacity limit), directly or as the value a loop-carried slice
+// starts from (`out := in[:0]; for … { out = append(out, …) }`)
+func truncatedViewOf(v ssa.Value, depth int) *ssa.Slice {
+	if depth > 3 {
+		return nil
+	}
+	switch x := v.(type) {
+	case *ssa.Slice:
+		if x.High != nil && x.Max == nil {
+			return x
+		}
+	case *ssa.Phi:
+		for _, e := range x.Edges {
+			if e == v {
+				continue
+			}
+			if c, ok := e.(*ssa.Call); ok {
+				if bi, ok := c.Common().Value.(*ssa.Builtin); ok && bi.Name() == "append" {
+					continue // the loop's own append: the view is what the other edge brings in
+				}
+			}
+			if sl := truncatedViewOf(e, depth+1); sl != nil {
+				return sl
+			}
+		}
+	}
+	return nil
+}
+
 func ruleNoAliasingAppend(cx *Ctx, prop string) []Obligation {
 	P := cx.P
 	key := prop + "/AP/no-aliasing-append"
@@ -521,8 +550,8 @@ func ruleNoAliasingAppend(cx *Ctx, prop string) []Obligation {
 						continue
 					}
 				}
-				sl, ok := c.Common().Args[0].(*ssa.Slice)
-				if !ok || sl.High == nil || sl.Max != nil {
+				sl := truncatedViewOf(c.Common().Args[0], 0)
+				if sl == nil {
 					continue
 				}
 				nOnView++
